@@ -31,6 +31,19 @@ Pure(e) ==
       [] e.op = "tss_layout" ->                     \* SDM vol. 3 fig. 8-11: RSP0-2 @ 4, IST1-7 @ 0x24, I/O map base @ 0x66
             /\ e.size = 104 /\ e.pst = 4 /\ e.ist = 36 /\ e.iomap = 102
             /\ e.iomap_init = 104 /\ e.default_iomap = 104 /\ e.zeroed = 1
+      [] e.op = "tss_stacks" ->                     \* IST n (1..7) at 0x24 + 8(n-1), RSP n (0..2) at 4 + 8n
+            /\ e.ist = [i \in 1 .. 7 |-> Add(<<0, 0, 4369, 0>>, W(4096 * (i - 1))).v]
+            /\ e.pst = [i \in 1 .. 3 |-> Add(<<0, 0, 8738, 0>>, W(4096 * (i - 1))).v]
+      [] e.op = "gdt_tss" ->                        \* the selector returned for a TSS descriptor makes ltr load that TSS
+            LET i == e.ts \div 8 IN
+            /\ e.ts >= 0 /\ e.ts % 8 = 0                               \* GDT, RPL 0
+            /\ i + 2 <= Len(e.entries)
+            /\ TssDescriptorOK(e.tss, e.entries[i + 1], e.entries[i + 2])
+            /\ Len(e.instrs) = 1 /\ e.instrs[1].m = "ltr" /\ e.instrs[1].a = W(e.ts)
+            \* code/data selectors index descriptors of the kind and privilege level they were made from
+            /\ PresetOK("kernel_code64", e.entries[e.cs \div 8 + 1]) /\ e.cs % 8 = 0
+            /\ PresetOK("kernel_data", e.entries[e.ds \div 8 + 1]) /\ e.ds % 8 = 0
+            /\ PresetOK("user_code64", e.entries[e.ucs \div 8 + 1]) /\ e.ucs % 8 = 3
       [] e.op = "dtp_layout" ->                     \* 16-bit limit, then 64-bit base, 10 bytes
             /\ e.size = 10 /\ e.limit_off = 0 /\ e.base_off = 2
             /\ e.bytes = << 205, 171, 102, 85, 68, 51, 34, 17, 0, 0 >>
